@@ -6,10 +6,10 @@ open Anysystem
 def parseStoreOp (ws : List String) : Option Op :=
   match ws with
   | ["pm", tip, data, src, dst, o] => some (.push (.msg ⟨name! tip, data! data⟩ (name! src) (name! dst) (opts! o)))
-  | ["pt", p, n, d] => some (.push (.timer (name! p) (name! n) (nat! d)))
+  | ["pt", p, n, d] => some (.push (.timer (name! p) (name! n) (delayBits d)))
   | ["rm", id, tip, data, src, dst, o] =>
     some (.reinsert (.msg ⟨name! tip, data! data⟩ (name! src) (name! dst) (opts! o)) (nat! id))
-  | ["rt", id, p, n, d] => some (.reinsert (.timer (name! p) (name! n) (nat! d)) (nat! id))
+  | ["rt", id, p, n, d] => some (.reinsert (.timer (name! p) (name! n) (delayBits d)) (nat! id))
   | ["pop", id] => some (.pop (nat! id))
   | ["ct", p, n] => some (.cancelTimer (name! p) (name! n))
   | ["cp", p] => some (.cancelProc (name! p))
